@@ -20,48 +20,74 @@
 (* Removed = "asfound": a cached project whose file was removed makes      *)
 (* needs_reload() raise (os.path.getmtime) - the WSGI application raises;  *)
 (* "repaired": answered 404 and forgotten.                                 *)
+(*                                                                         *)
+(* A configuration may include a base file (`base:`): the projects in      *)
+(* Includes share one.  An application is built from both files and the    *)
+(* time stamp of EACH file is recorded with it; it is rebuilt when one of  *)
+(* the files is newer than its own recorded stamp.  Files do not always    *)
+(* get the time of the moment they are written (rsync -t, cp -p, a check-  *)
+(* out): a write carries any stamp above the highest one the path has had  *)
+(* (hw) - e.g. a base file that is replaced by a version that is older     *)
+(* than the project file.  (A stamp that is not above the recorded one     *)
+(* cannot be noticed by a reload rule that looks at time stamps.)          *)
 (***************************************************************************)
 EXTENDS Naturals, Sequences, FiniteSets, TLC
 
-CONSTANTS Proj, Size, MaxClock, Removed
+CONSTANTS Proj, Size, MaxClock, Removed,
+          Includes      \* \subseteq Proj: the projects whose configuration includes the shared base file
 
-VARIABLES files, lru, clock, last
-vars == <<files, lru, clock, last>>
+VARIABLES files, base, hw, lru, clock, last
+vars == <<files, base, hw, lru, clock, last>>
 
 Cached(p) == \E i \in 1 .. Len(lru) : lru[i].proj = p
 Entry(p) == lru[CHOOSE i \in 1 .. Len(lru) : lru[i].proj = p]
 Touch(q, e) == <<e>> \o SelectSeq(q, LAMBDA x : x.proj # e.proj)
 Trim(q) == IF Len(q) > Size THEN SubSeq(q, 1, Size) ELSE q
-Reply(p, st, ver) == [proj |-> p, status |-> st, ver |-> ver]
+Reply(p, st, ver, bver) == [proj |-> p, status |-> st, ver |-> ver, bver |-> bver]
+BVer(p) == IF p \in Includes THEN base.ver ELSE 0
+BTime(p) == IF p \in Includes THEN base.mtime ELSE 0
 
 Init ==
   /\ files = [p \in Proj |-> [ver |-> 0, mtime |-> 0]]
-  /\ lru = <<>> /\ clock = 1 /\ last = Reply("none", 0, 0)
+  /\ base = [ver |-> 0, mtime |-> 0] /\ hw = [f \in Proj \cup {"base"} |-> 0]
+  /\ lru = <<>> /\ clock = 1 /\ last = Reply("none", 0, 0, 0)
 
 Request(p) ==
-  /\ UNCHANGED <<files, clock>>
+  /\ UNCHANGED <<files, base, hw, clock>>
   /\ IF ~Cached(p) /\ p \notin DOMAIN files
-       THEN last' = Reply(p, 404, 0) /\ UNCHANGED lru
+       THEN last' = Reply(p, 404, 0, 0) /\ UNCHANGED lru
      ELSE IF p \notin DOMAIN files                         \* cached, but the file is gone
        THEN IF Removed = "asfound"
-              THEN last' = Reply(p, 999, 0) /\ lru' = Touch(lru, Entry(p))    \* the application raises (after the look-up)
-              ELSE last' = Reply(p, 404, 0) /\ lru' = SelectSeq(lru, LAMBDA x : x.proj # p)
-     ELSE IF Cached(p) /\ ~(files[p].mtime > Entry(p).mtime)
-       THEN last' = Reply(p, 200, Entry(p).ver) /\ lru' = Touch(lru, Entry(p))
-     ELSE LET e == [proj |-> p, ver |-> files[p].ver, mtime |-> files[p].mtime] IN
-          last' = Reply(p, 200, e.ver) /\ lru' = Trim(Touch(lru, e))
+              THEN last' = Reply(p, 999, 0, 0) /\ lru' = Touch(lru, Entry(p))    \* the application raises (after the look-up)
+              ELSE last' = Reply(p, 404, 0, 0) /\ lru' = SelectSeq(lru, LAMBDA x : x.proj # p)
+     ELSE IF Cached(p) /\ ~(files[p].mtime > Entry(p).mtime) /\ ~(BTime(p) > Entry(p).bmtime)
+       THEN last' = Reply(p, 200, Entry(p).ver, Entry(p).bver) /\ lru' = Touch(lru, Entry(p))
+     ELSE LET e == [proj |-> p, ver |-> files[p].ver, mtime |-> files[p].mtime, bver |-> BVer(p), bmtime |-> BTime(p)] IN
+          last' = Reply(p, 200, e.ver, e.bver) /\ lru' = Trim(Touch(lru, e))
 
-WriteConf(p) ==
+\* the time stamps a write may carry: now, or the oldest one that is still newer than everything the path has had
+Stamps(f) == {clock, hw[f] + 1}
+WriteConf(p, m) ==
+  /\ m \in Stamps(p)
   /\ files' = [q \in DOMAIN files \cup {p} |->
-                 IF q = p THEN [ver |-> clock, mtime |-> clock] ELSE files[q]]     \* (content version = time of writing)
-  /\ clock' = clock + 1 /\ last' = Reply(p, 0, 0) /\ UNCHANGED lru
+                 IF q = p THEN [ver |-> clock, mtime |-> m] ELSE files[q]]     \* (content version = time of writing)
+  /\ hw' = [hw EXCEPT ![p] = m]
+  /\ clock' = clock + 1 /\ last' = Reply(p, 0, 0, 0) /\ UNCHANGED <<lru, base>>
+
+WriteBase(m) ==
+  /\ Includes # {} /\ m \in Stamps("base")
+  /\ base' = [ver |-> clock, mtime |-> m] /\ hw' = [hw EXCEPT !["base"] = m]
+  /\ clock' = clock + 1 /\ last' = Reply("base", 0, 0, 0) /\ UNCHANGED <<lru, files>>
 
 RemoveConf(p) ==
   /\ p \in DOMAIN files
   /\ files' = [q \in DOMAIN files \ {p} |-> files[q]]
-  /\ clock' = clock + 1 /\ last' = Reply(p, 0, 0) /\ UNCHANGED lru
+  /\ clock' = clock + 1 /\ last' = Reply(p, 0, 0, 0) /\ UNCHANGED <<lru, base, hw>>
 
-Next == \E p \in Proj : Request(p) \/ WriteConf(p) \/ RemoveConf(p)
+WriteConfAny(p) == \E m \in Stamps(p) : WriteConf(p, m)
+WriteBaseAny == \E m \in Stamps("base") : WriteBase(m)
+Next == \/ \E p \in Proj : Request(p) \/ RemoveConf(p) \/ WriteConfAny(p)
+        \/ WriteBaseAny
 Spec == Init /\ [][Next]_vars
 Bounded == clock <= MaxClock
 
@@ -69,11 +95,12 @@ Bounded == clock <= MaxClock
 \* every request gets an answer (the WSGI application never raises)
 NoRaise == last.status # 999
 \* an answered project request is answered by an application built from the current configuration
-ServedCurrent == [][last'.status = 200 => (last'.proj \in DOMAIN files /\ last'.ver = files[last'.proj].ver)]_vars
+ServedCurrent == [][last'.status = 200 => (/\ last'.proj \in DOMAIN files /\ last'.ver = files[last'.proj].ver
+                                            /\ last'.proj \in Includes => last'.bver = base.ver)]_vars
 \* a project without configuration is not served
 GoneIsGone == [][(last'.status = 200) => last'.proj \in DOMAIN files]_vars
 BoundedCache == Len(lru) <= Size
 NoDuplicates == \A i, j \in 1 .. Len(lru) : lru[i].proj = lru[j].proj => i = j
 \* the cache never holds something newer than the file it was built from
-CacheNotFromFuture == \A i \in 1 .. Len(lru) : lru[i].proj \in DOMAIN files => lru[i].mtime <= files[lru[i].proj].mtime
+CacheNotFromFuture == \A i \in 1 .. Len(lru) : lru[i].proj \in DOMAIN files => (lru[i].mtime <= files[lru[i].proj].mtime /\ lru[i].bmtime <= BTime(lru[i].proj))
 =============================================================================
